@@ -401,6 +401,45 @@ Example C04_example_reconstruct_history :
   out_fs (nth 2 (ops_run NP24 2 2 (init_fs false) h) (noop (init_fs false) (Status 0) false)) PMark = Complete.
 Proof. vm_compute. repeat split. Qed.
 
+(* ---- file names and probe versions ------------------------------------------------------ *)
+(* The lf output is named name.replace("ap", "lf").  For EVERY file name (any characters, any length —
+   in particular names with a dataset UUID between "ap" and the extension): the renamed name has the
+   same length, and it equals the name given exactly when the name contains no "ap"; so as soon as
+   the name contains "ap", no lf output path — whatever extension / suffix follows — is a path of the
+   file given (the model's distinct Orig and Lf21 / Shank-lf paths are distinct real paths). *)
+Theorem C04_output_names_never_alias_original : forall stem e e',
+  has_ap stem = true ->
+  length (lf_name stem) = length stem /\ lf_name stem ++ e' <> stem ++ e.
+Proof. intros stem e e' H. split; [apply lf_name_length | apply lf_name_never_aliases; exact H]. Qed.
+Print Assumptions C04_output_names_never_alias_original.
+
+(* ... and conversely (F-C04-i, faithful to the code): a file whose name contains no "ap" — which
+   spikeglx.Reader accepts — makes the lf path the path of the file itself. *)
+Theorem C04_name_without_ap_aliases_refuted :
+  (forall s, lf_name s = s <-> has_ap s = false) /\
+  lf_name [114; 101; 99; 46; 105; 109; 101; 99; 48; 46; 98; 105; 110]%Z
+        = [114; 101; 99; 46; 105; 109; 101; 99; 48; 46; 98; 105; 110]%Z.      (* "rec.imec0.bin" *)
+Proof. split; [exact lf_name_alias_iff | reflexivity]. Qed.
+Print Assumptions C04_name_without_ap_aliases_refuted.
+
+(* Probe-version dispatch: for every version that is neither NP2.1 nor NP2.4 — 3A, 3B1, 3B2, NPultra —
+   process() returns -1 and touches nothing (also with a hardware lf file next to the recording). *)
+Theorem C04_non_np2_versions_untouched : forall v n w fs r k,
+  (v = V3A \/ v = V3B1 \/ v = V3B2 \/ v = VNPultra) ->
+  r_target r <> TShank k -> input_state NP1 n fs (r_target r) = Present ->
+  out_outcome (run_once (kind_of_version v) n w fs r) = Status (-1) /\
+  (forall p, out_fs (run_once (kind_of_version v) n w fs r) p = fs p).
+Proof.
+  intros v n w fs r k Hv. apply non_np2_noop. destruct Hv as [-> | [-> | [-> | ->]]]; reflexivity.
+Qed.
+Print Assumptions C04_non_np2_versions_untouched.
+
+Example C04_example_uuid_name :   (* "x.ap.4f1e.bin" -> "x.lf.4f1e.bin" *)
+  lf_name [120; 46; 97; 112; 46; 52; 102; 49; 101; 46; 98; 105; 110]%Z
+        = [120; 46; 108; 102; 46; 52; 102; 49; 101; 46; 98; 105; 110]%Z /\
+  has_ap [120; 46; 97; 112; 46; 52; 102; 49; 101; 46; 98; 105; 110]%Z = true.
+Proof. split; reflexivity. Qed.
+
 (* ---- the hypotheses of the theorems above are satisfiable on non-trivial inputs ---- *)
 (* rerun_noop / complete_run_then_rerun_noop: a complete run, then a plain re-run *)
 Example C04_example_rerun :
